@@ -464,6 +464,9 @@ func c19Generate(tier string, emit func(src string)) {
 		"<p><label>Bio <textarea>\nline 1\n  line 2\nline 3</textarea></label></p>", "<span><a href=\"#\"><pre>a\n  b\n\tc</pre></a></span>", "<span><span><script>if (a < b && c) {}</script></span></span>",
 		"<table><tr><td><a href=\"/x\"><pre>x\n y</pre></a></td></tr></table>", "<h2><em><style>a > b { content: \"&\" }</style></em></h2>", "<button><b><textarea>  two\n  lines</textarea></b></button>", "<p><i><b><pre>deep\n  er</pre></b></i></p>",
 		"<label><span><textarea>{{ a }}\n  {{ b }}</textarea></span> l</label>",
+		// attribute values spelled like the attribute's name (in any case), "true", "false", a lone space
+		`<form><label for="for">l</label><input name="name" value="value" checked="checked" disabled="DISABLED"></form>`, `<div class="Class"><slot name="name">fb</slot></div>`, `<select><option selected="selected" value="Value">o</option></select>`,
+		`<p hidden="hidden" title="Title" id="ID" lang="lang">x</p>`, `<input required="true" readonly="false" type="type">`, `<template include="include" :name="name" v-if="v-if"></template>`,
 		// attribute values that need collapsing and hold spaces that are not HTML white space
 		"<p title=\"Distance:\n    10&nbsp;km\">x</p>", "<p :class=\"{ 'a\u3000b':\n  on }\">x</p>", "<p title=\"a  b\u2003c\">x</p>", "<p title=\"\u00a0 a\t b \u00a0\">x</p>", "<p title=\"a\u0085\n b\">x</p>", "<p data-x=\"\u2028x\n\ny\u2029\">x</p>",
 		"<a href=\"/p?a=1&amp;b=2\n\" title=\"&nbsp;\n&nbsp;\">x</a>", "<input value=\"a\u00a0\u00a0b  c\">",
